@@ -24,6 +24,150 @@ def deliver (cfg : Cfg) (V : Srv.Verify) (s : State) (now : Nat) (ds : List Byte
 def datagram (sign : Bytes → Bytes) (id : Nat) (r : Record) : Bytes :=
   Report.encode ⟨id, r.ts, r.energy, sign (Report.signingBytes ⟨id, r.ts, r.energy, []⟩)⟩
 
+/-! ### Helpers -/
+
+/-- A slot step never empties a slot, and a non-empty report fills an empty one. -/
+theorem c08h_slotStep_pos (cap : Nat) (old r : Report) (h : 0 < old.p ∨ 0 < r.p) :
+    0 < (slotStep cap old r).p := by
+  unfold slotStep
+  by_cases h1 : old.p = 1
+  · rw [if_pos h1]; omega
+  · rw [if_neg h1]
+    by_cases h2 : old = r
+    · rw [if_pos h2]; subst h2; omega
+    · rw [if_neg h2]
+      by_cases h3 : old.p = 0
+      · simp only [h3, if_true]
+        split
+        · exact Nat.one_pos
+        · omega
+      · simp only [h3, if_false]
+        split <;> exact Nat.one_pos
+
+theorem c08h_integrateDev_false {off : Nat} {d d' : Srv.Dev} {r : Report}
+    (h : integrateDev off d r = some (d', false)) : d' = d := by
+  unfold integrateDev at h
+  split at h
+  · simp at h; exact h.symm
+  split at h
+  · simp at h; exact h.symm
+  split at h
+  · cases h
+  split at h
+  · simp at h; exact h.symm
+  split at h
+  · simp at h; exact h.symm
+  · simp at h
+
+/-- What delivering datagrams preserves for device `id`: the offset, the presence of
+the device with its authorization, and non-emptiness of every slot. -/
+def c08h_Mono (id : Nat) (s s' : State) : Prop :=
+  s'.off = s.off ∧ ∀ d : Srv.Dev, s.devices.get id = some d → ∃ d' : Srv.Dev, s'.devices.get id = some d' ∧ d'.auth = d.auth ∧
+    ∀ (i : Nat) (x : Report), d.reports[i]? = some x → ∃ x' : Report, d'.reports[i]? = some x' ∧ (0 < x.p → 0 < x'.p)
+
+theorem c08h_Mono_refl (id : Nat) (s : State) : c08h_Mono id s s :=
+  ⟨rfl, fun d hd => ⟨d, hd, rfl, fun _ x hx => ⟨x, hx, fun h => h⟩⟩⟩
+
+theorem c08h_Mono_trans {id : Nat} {s1 s2 s3 : State} (h12 : c08h_Mono id s1 s2) (h23 : c08h_Mono id s2 s3) :
+    c08h_Mono id s1 s3 := by
+  refine ⟨h23.1.trans h12.1, fun d hd => ?_⟩
+  obtain ⟨d2, hd2, ha2, hs2⟩ := h12.2 d hd
+  obtain ⟨d3, hd3, ha3, hs3⟩ := h23.2 d2 hd2
+  refine ⟨d3, hd3, ha3.trans ha2, fun i x hx => ?_⟩
+  obtain ⟨x2, hx2, hp2⟩ := hs2 i x hx
+  obtain ⟨x3, hx3, hp3⟩ := hs3 i x2 hx2
+  exact ⟨x3, hx3, fun h => hp3 (hp2 h)⟩
+
+/-- Effect of `integrate` on the device `id`. -/
+theorem c08h_integrate {cfg : Cfg} {s s' : State} {r : Report} {b : Bool} (hinv : Inv s)
+    (hi : integrate cfg s r = some (s', b)) (id : Nat) :
+    c08h_Mono id s s' ∧
+    (r.id = id → s.off ≤ r.ts → r.ts < s.off + window → 0 < r.p →
+      ∃ d' x', s'.devices.get id = some d' ∧ d'.reports[r.ts - s.off]? = some x' ∧ 0 < x'.p) := by
+  have hoff : s'.off = s.off := (c01h_integrate_frame hi).2.2.2.2.1
+  by_cases hid : r.id = id
+  · subst hid
+    cases hg : s.devices.get r.id with
+    | none => simp [integrate, hg] at hi
+    | some d =>
+      have hlen := (hinv.devOk _ _ hg).2.1
+      by_cases hw : r.ts < s.off ∨ s.off + window ≤ r.ts
+      · rw [c01h_integrate_outside cfg s r d hg hw] at hi
+        cases hi
+        exact ⟨c08h_Mono_refl _ _, fun _ h1 h2 _ => by omega⟩
+      · obtain ⟨d1, b1, hi1, ha1, _, _, hs1, ho1⟩ :=
+          c02h_integrateDev_spec s.off d r hlen (by omega) (by omega)
+        have hidx : r.ts - s.off < d.reports.length := by rw [hlen]; omega
+        have hget : d.reports[r.ts - s.off]? = some d.reports[r.ts - s.off] := List.getElem?_eq_getElem hidx
+        rw [hget, Option.getD_some] at hs1
+        -- the device found in `s'`
+        have hdev : s'.devices.get r.id = some d1 := by
+          unfold integrate at hi
+          simp only [hg, hi1] at hi
+          cases b1 with
+          | false =>
+            simp only [Option.some.injEq, Prod.mk.injEq] at hi
+            rw [← hi.1, c08h_integrateDev_false hi1]; exact hg
+          | true =>
+            simp only [Option.some.injEq, Prod.mk.injEq] at hi
+            rw [← hi.1]; exact FMap.get_set_same _ _ _
+        refine ⟨⟨hoff, fun d0 hd0 => ?_⟩, fun _ _ _ hp => ?_⟩
+        · rw [hg] at hd0; cases hd0
+          refine ⟨d1, hdev, ha1, fun i x hx => ?_⟩
+          by_cases hii : i = r.ts - s.off
+          · subst hii
+            rw [hget] at hx; cases hx
+            exact ⟨_, hs1, fun h => c08h_slotStep_pos _ _ _ (Or.inl h)⟩
+          · exact ⟨x, by rw [ho1 i hii]; exact hx, fun h => h⟩
+        · exact ⟨d1, _, hdev, hs1, c08h_slotStep_pos _ _ _ (Or.inr hp)⟩
+  · have hfr := (c01h_integrate_frame hi).2.2.2.2.2.2.2.2.2.2.2.2 id (Ne.symm hid)
+    refine ⟨⟨hoff, fun d hd => ⟨d, by rw [hfr]; exact hd, rfl, fun _ x hx => ⟨x, hx, fun h => h⟩⟩⟩, ?_⟩
+    intro h; exact absurd h hid
+
+theorem c08h_dgram_mono (cfg : Cfg) (V : Srv.Verify) (s : State) (now : Nat) (b : Bytes) (hinv : Inv s)
+    (id : Nat) : c08h_Mono id s (dgram cfg V s now b).1 := by
+  rcases c01h_dgram_state cfg V s now b with h | ⟨r, b', _, hi⟩
+  · rw [h]; exact c08h_Mono_refl _ _
+  · exact (c08h_integrate hinv hi id).1
+
+theorem c08h_deliver_append (cfg : Cfg) (V : Srv.Verify) (s : State) (now : Nat) (l1 l2 : List Bytes) :
+    deliver cfg V s now (l1 ++ l2) = deliver cfg V (deliver cfg V s now l1) now l2 := by
+  unfold deliver; rw [List.foldl_append]
+
+theorem c08h_deliver (cfg : Cfg) (V : Srv.Verify) (now : Nat) (ds : List Bytes) (id : Nat) :
+    ∀ s, Srv.Inv s → Srv.Inv (deliver cfg V s now ds) ∧ c08h_Mono id s (deliver cfg V s now ds) := by
+  induction ds with
+  | nil => intro s h; exact ⟨h, c08h_Mono_refl _ _⟩
+  | cons b t ih =>
+    intro s h
+    have h1 := inv_dgram cfg V s now b h
+    obtain ⟨h2, h3⟩ := ih _ h1
+    exact ⟨h2, c08h_Mono_trans (c08h_dgram_mono cfg V s now b h id) h3⟩
+
+/-- A well-formed, verifying, in-range, non-sentinel report is handed to `integrate`. -/
+theorem c08h_dgram_accept (cfg : Cfg) (V : Srv.Verify) (s : State) (now : Nat) (r : Report) (dev : Srv.Dev)
+    (hinv : Inv s) (hwf : r.WF) (hd : s.devices.get r.id = some dev)
+    (hv : V dev.auth.key (Report.signingBytes r) r.sig = true)
+    (h4 : (now : Int) - 432 ≤ r.ts) (h5 : (r.ts : Int) ≤ now + 432) (hp : r.p ≠ 0 ∧ r.p ≠ 1) :
+    ∃ b, integrate cfg s r = some ((dgram cfg V s now (Report.encode r)).1, b) := by
+  have hl : (Report.encode r).length = 80 := Report.encode_length r hwf.2.2.2
+  have ht : (Report.encode r).take 80 = Report.encode r := List.take_of_length_le (by omega)
+  have hpr : parseReport V s (Report.encode r) = some r := by
+    unfold parseReport
+    simp only [Report.decode_encode r hwf, hd, hv, if_true]
+  unfold dgram
+  rw [if_neg (by omega), ht]
+  simp only [hpr]
+  rw [if_neg (by omega), if_neg (by omega)]
+  cases hi : integrate cfg s r with
+  | none => exact absurd hi (c01h_integrate_ne_none cfg s r dev hd (hinv.devOk _ _ hd).2.1)
+  | some q => obtain ⟨s', b⟩ := q; exact ⟨b, rfl⟩
+
+theorem c08h_signExt32 (v : Nat) (h2 : 2 ≤ v) (hv : v < 2^32) :
+    signExt32 v ≠ 0 ∧ signExt32 v ≠ 1 ∧ signExt32 v < 2^64 := by
+  unfold signExt32
+  split <;> omega
+
 /-- A slot that holds a record keeps holding one, whatever datagrams arrive
 (values can turn into the ban sentinel, never back to empty), and devices are not removed by datagrams. -/
 theorem c08_slots_monotone (cfg : Cfg) (V : Srv.Verify) (s : State) (now : Nat) (ds : List Bytes) (hinv : Inv s)
@@ -31,7 +175,10 @@ theorem c08_slots_monotone (cfg : Cfg) (V : Srv.Verify) (s : State) (now : Nat) 
     (hp : r.p > 0) :
     ∃ d' r', (deliver cfg V s now ds).devices.get id = some d' ∧ d'.reports[i]? = some r' ∧ r'.p > 0 ∧
       (deliver cfg V s now ds).off = s.off := by
-  sorry
+  obtain ⟨_, hoff, hm⟩ := c08h_deliver cfg V now ds id s hinv
+  obtain ⟨d', hd', _, hs⟩ := hm d hd
+  obtain ⟨r', hr', hp'⟩ := hs i r hr
+  exact ⟨d', r', hd', hr', hp' hp, hoff⟩
 
 /-- Recovery: after a sync round against the server's current state, once the
 retransmitted datagrams have arrived (in any order, any multiplicity, among
@@ -50,13 +197,66 @@ theorem c08_recover (cfg : Cfg) (V : Srv.Verify) (sign : Bytes → Bytes) (s : S
     (hv : ∃ v, hist.load t = some v ∧ 2 ≤ v ∧ v < 2^32) :
     ∃ d' r', (deliver cfg V s now delivered).devices.get id = some d' ∧
       d'.reports[t - s.off]? = some r' ∧ r'.p > 0 := by
-  sorry
+  obtain ⟨v, hload, hv2, hv32⟩ := hv
+  have hlen : dev.reports.length = 4032 := (hinv.devOk _ _ hd).2.1
+  have hi : t - s.off < 4032 := by unfold window at h3; omega
+  have hget : dev.reports[t - s.off]? = some dev.reports[t - s.off] :=
+    List.getElem?_eq_getElem (by rw [hlen]; exact hi)
+  by_cases hpos : 0 < (dev.reports[t - s.off]).p
+  · obtain ⟨d', r', h1', h2', h3', _⟩ :=
+      c08_slots_monotone cfg V s now delivered hinv id dev (t - s.off) _ hd hget hpos
+    exact ⟨d', r', h1', h2', h3'⟩
+  · -- the flag is clear, so the client retransmits the record
+    have hbit : bitSet (packBits 504 (dev.reports.map (fun r => decide (r.p > 0)))) (t - s.off) = false := by
+      rw [(c10_bit _ (t - s.off) (by simp [hlen]) hi).1]
+      simp [List.getD_eq_getElem?_getD, List.getElem?_map, hget, hpos]
+    have hmod : (t - s.off + s.off) % 2^32 = t := by omega
+    have hmem : (⟨t, signExt32 v⟩ : Record) ∈
+        resend hist latest s.off (packBits 504 (dev.reports.map (fun r => decide (r.p > 0)))) := by
+      have hlast : (latest + 2^32 - s.off) % 2^32 = latest - s.off := by omega
+      unfold resend
+      simp only [hlast]
+      rw [List.mem_filterMap]
+      refine ⟨t - s.off, List.mem_range.2 (Nat.lt_min.2 ⟨by omega, hi⟩), ?_⟩
+      simp only [hbit, hmod, hload]
+      rw [if_neg (show ¬ v < 2 by omega)]
+      rfl
+    have hin := hdel _ hmem
+    obtain ⟨pre, post, hsplit⟩ := List.append_of_mem hin
+    rw [hsplit, c08h_deliver_append]
+    obtain ⟨hinv1, hoff1, hm1⟩ := c08h_deliver cfg V now pre id s hinv
+    obtain ⟨d1, hd1, ha1, _⟩ := hm1 dev hd
+    generalize deliver cfg V s now pre = s1 at hinv1 hoff1 hd1
+    obtain ⟨hs0, hs1, hs64⟩ := c08h_signExt32 v hv2 hv32
+    let r : Report := ⟨id, t, signExt32 v, sign (Report.signingBytes ⟨id, t, signExt32 v, []⟩)⟩
+    have hdg : datagram sign id ⟨t, signExt32 v⟩ = Report.encode r := rfl
+    have hwf : r.WF := ⟨hid, by show t < 2^32; omega, hs64, hsl _⟩
+    have hver : V d1.auth.key (Report.signingBytes r) r.sig = true := by
+      rw [ha1]; exact hsig _
+    obtain ⟨b, hint⟩ := c08h_dgram_accept cfg V s1 now r d1 hinv1 hwf hd1 hver h4 h5 ⟨hs0, hs1⟩
+    have hstep : deliver cfg V s1 now (datagram sign id ⟨t, signExt32 v⟩ :: post) =
+        deliver cfg V (dgram cfg V s1 now (Report.encode r)).1 now post := rfl
+    rw [hstep]
+    have hinv2 := inv_dgram cfg V s1 now (Report.encode r) hinv1
+    generalize (dgram cfg V s1 now (Report.encode r)).1 = s2 at hint hinv2
+    obtain ⟨d2, x2, hd2, hx2, hp2⟩ := (c08h_integrate hinv1 hint id).2 rfl
+      (by show s1.off ≤ t; omega) (by show t < s1.off + window; omega) (by show 0 < signExt32 v; omega)
+    have hx2' : d2.reports[t - s.off]? = some x2 := by rw [← hoff1]; exact hx2
+    obtain ⟨d', r', h1', h2', h3', _⟩ :=
+      c08_slots_monotone cfg V s2 now post hinv2 id d2 (t - s.off) x2 hd2 hx2' hp2
+    exact ⟨d', r', h1', h2', h3'⟩
 
 /-- A retransmitted value equals the original when the original fits 32 signed bits
 (two's complement in 64 bits): store the low 32 bits, sign-extend on the way back. -/
 theorem c08_value_identical (e : Nat) (h : e < 2^31 ∨ (2^64 - 2^31 ≤ e ∧ e < 2^64)) :
     signExt32 (e % 2^32) = e := by
-  sorry
+  unfold signExt32
+  rcases h with h | ⟨h1, h2⟩
+  · have : e % 2^32 = e := Nat.mod_eq_of_lt (by omega)
+    rw [this, if_pos h]
+  · have : e % 2^32 = e - (2^64 - 2^32) := by omega
+    rw [this, if_neg (by omega)]
+    omega
 
 /-- Hence the retransmitted datagram is byte for byte the one originally sent. -/
 theorem c08_datagram_identical (sign : Bytes → Bytes) (id ts e : Nat)
@@ -69,7 +269,35 @@ theorem c08_no_self_ban (cfg : Cfg) (V : Srv.Verify) (s : State) (now : Nat) (b 
     (hdec : Report.decode (b.take 80) = some r) (hd : s.devices.get r.id = some dev)
     (hin : s.off ≤ r.ts ∧ r.ts < s.off + window) (hslot : dev.reports[r.ts - s.off]? = some r) :
     dgram cfg V s now b = (s, .dropped) := by
-  sorry
+  unfold dgram
+  by_cases hl : b.length < 80
+  · rw [if_pos hl]
+  rw [if_neg hl]
+  cases hp : parseReport V s (b.take 80) with
+  | none => rfl
+  | some r' =>
+    have hr' : r' = r := by
+      have := (c01h_parseReport_some hp).1
+      rw [hdec] at this; exact (Option.some.inj this).symm
+    subst hr'
+    simp only
+    by_cases ht : (r'.ts : Int) < (now : Int) - 432 ∨ (r'.ts : Int) > (now : Int) + 432
+    · rw [if_pos ht]
+    rw [if_neg ht]
+    by_cases hp0 : r'.p = 0 ∨ r'.p = 1
+    · rw [if_pos hp0]
+    rw [if_neg hp0]
+    have hidev : integrateDev s.off dev r' = some (dev, false) := by
+      unfold integrateDev
+      rw [if_neg (by omega), if_neg (by omega)]
+      simp only [hslot]
+      rw [if_neg (show ¬ r'.p = 1 by omega)]
+      simp
+    have : integrate cfg s r' = some (s, false) := by
+      unfold integrate
+      simp only [hd, hidev]
+    simp only [this]
+    rfl
 
 /-- Counterpoint (why the "fits 32 signed bits" clause is there): a value above 2^31 that is not a
 negative 64-bit number is retransmitted differently. -/
